@@ -184,6 +184,6 @@ Definition offending (d : dialect) (S : schema) (vds : list vardef) (vars : json
 
 (* ---- no echo: the names a message may mention ---- *)
 Definition schema_names (S : schema) (vds : list vardef) : list name :=
-  map vd_name vds
-  ++ flat_map (fun td => td_name td :: map iv_name (td_input_fields td)) (s_types S).
+  flat_map (fun vd => [vd_name vd; named_of (vd_type vd)]) vds
+  ++ flat_map (fun td => td_name td :: flat_map (fun f => [iv_name f; named_of (iv_type f)]) (td_input_fields td)) (s_types S).
 Definition known_name (S : schema) (vds : list vardef) (n : name) : bool := mem_bytes n (schema_names S vds).
